@@ -24,16 +24,38 @@ package arvados
 
 import (
 	"fmt"
+	"os"
 	"runtime"
 	"sort"
 	"strconv"
 	"strings"
+	"sync/atomic"
 	"testing"
+	"time"
 
 	"git.arvados.org/arvados.git/internal/verifkit"
 )
 
 const c09EmptyBlock = "d41d8cd98f00b204e9800998ecf8427e+0"
+
+// c09StackSummary keeps the goroutines of a dump that are inside the
+// collection filesystem.
+func c09StackSummary(dump string) string {
+	var out []string
+	for _, g := range strings.Split(dump, "\n\n") {
+		if strings.Contains(g, "fs_collection.go") || strings.Contains(g, "throttle.go") || strings.Contains(g, "fs_base.go") {
+			lines := strings.Split(g, "\n")
+			if len(lines) > 14 {
+				lines = lines[:14]
+			}
+			out = append(out, strings.Join(lines, "\n"))
+		}
+		if len(out) >= 6 {
+			break
+		}
+	}
+	return strings.Join(out, "\n\n")
+}
 
 func (w *c08World) c09Violate(sig, detail string) { w.violate(sig, detail) }
 
@@ -42,19 +64,69 @@ func (w *c08World) c09Save(op *c08Op) {
 	w.keep.setInSave(true)
 	var txt string
 	var err error
-	if op.K == "sync" {
-		err = w.fs.Sync()
-		if err == nil {
-			var got bool
-			txt, got = w.api.last()
-			if !got {
+	// The save runs on its own goroutine so that a save that never returns
+	// ("a later save can still succeed" is part of the statement) is a
+	// verdict, not a watchdog kill. It counts as hung only after the Keep
+	// stub has seen no activity at all for 60 s, every parked write has been
+	// released, and another 60 s without activity have passed.
+	type c09SaveRes struct {
+		txt    string
+		err    error
+		noText bool
+	}
+	resCh := make(chan c09SaveRes, 1)
+	go func() {
+		var r c09SaveRes
+		if op.K == "sync" {
+			r.err = w.fs.Sync()
+			if r.err == nil {
+				var got bool
+				r.txt, got = w.api.last()
+				r.noText = !got
+			}
+		} else {
+			r.txt, r.err = w.fs.MarshalManifest(".")
+		}
+		resCh <- r
+	}()
+	activity := func() int {
+		w.keep.mu.Lock()
+		defer w.keep.mu.Unlock()
+		return w.keep.serial + w.keep.done
+	}
+	last, lastChange, released := activity(), time.Now(), false
+	tick := time.NewTicker(20 * time.Millisecond)
+	defer tick.Stop()
+wait:
+	for {
+		select {
+		case r := <-resCh:
+			txt, err = r.txt, r.err
+			if r.noText {
 				w.keep.setInSave(false)
 				w.c09Violate("C09:sync-succeeded-without-sending-a-manifest", "Sync() returned nil but no manifest_text reached the API")
 				return
 			}
+			break wait
+		case <-tick.C:
+			if a := activity(); a != last {
+				last, lastChange = a, time.Now()
+			} else if time.Since(lastChange) > 60*time.Second {
+				if !released {
+					w.keep.setGate(false)
+					released, lastChange = true, time.Now()
+					continue
+				}
+				fails, _, _, _ := w.keep.counts()
+				buf := make([]byte, 1<<16)
+				buf = buf[:runtime.Stack(buf, true)]
+				w.keep.setInSave(false)
+				w.hung = true
+				w.c09Violate("C09:M4:save-never-returns",
+					fmt.Sprintf("%s has not returned: no Keep activity for 2x60 s with every parked write released and a Keep stub that answers at once (%d block writes failed earlier in this sequence)\n%s", op, fails, c09StackSummary(string(buf))))
+				return
+			}
 		}
-	} else {
-		txt, err = w.fs.MarshalManifest(".")
 	}
 	w.keep.setInSave(false)
 	fail1, _, _, _ := w.keep.counts()
@@ -287,9 +359,75 @@ func TestVerifC09(t *testing.T) {
 	runtime.GC()
 	r := &c08Runner{run: run, baseG: runtime.NumGoroutine()}
 
+	// Stall monitor. Every filesystem call of a sequence runs on the test
+	// goroutine; if one of them never returns (e.g. it waits for a write-
+	// throttle slot that a failed block write never gave back) the statement's
+	// "the buffered data stays readable and a later save can still succeed" is
+	// violated, and without this monitor the run would merely end at the
+	// driver's watchdog as inconclusive. Verdict only after 150 s with no
+	// operation starting or finishing and no Keep stub activity; it is a C09
+	// violation only if block writes had failed earlier in that sequence,
+	// otherwise inconclusive (deadlocks as such belong to C13).
+	stopMon := make(chan struct{})
+	defer close(stopMon)
+	go func() {
+		lastP, lastA, lastChange := int64(-1), -1, time.Now()
+		for {
+			select {
+			case <-stopMon:
+				return
+			case <-time.After(time.Second):
+			}
+			p := atomic.LoadInt64(&c08Progress)
+			a := 0
+			w, _ := c08CurWorld.Load().(*c08World)
+			if w != nil {
+				w.keep.mu.Lock()
+				a = w.keep.serial + w.keep.done
+				w.keep.mu.Unlock()
+			}
+			if p != lastP || a != lastA || p%2 == 0 {
+				// p even: between operations
+				lastP, lastA, lastChange = p, a, time.Now()
+				continue
+			}
+			if time.Since(lastChange) < 150*time.Second {
+				continue
+			}
+			w.keep.setGate(false)
+			time.Sleep(20 * time.Second)
+			if atomic.LoadInt64(&c08Progress) != p {
+				lastChange = time.Now()
+				continue
+			}
+			opDesc, _ := c08CurOp.Load().(string)
+			fs, fb, _, _ := w.keep.counts()
+			buf := make([]byte, 1<<16)
+			buf = buf[:runtime.Stack(buf, true)]
+			detail := fmt.Sprintf("operation %s has not returned after 170 s without any Keep activity, every parked write released (%d block writes failed earlier in this sequence: %d during saves, %d in the background)\n%s", opDesc, fs+fb, fs, fb, c09StackSummary(string(buf)))
+			if fs+fb > 0 {
+				run.Violation("C09:M4:operation-never-returns-after-failed-block-writes", detail, nil)
+			} else {
+				run.Inconclusive("C09: " + detail)
+			}
+			run.Count("batch_abandoned_after_stall", 1)
+			run.Finish()
+			os.Exit(0)
+		}
+	}()
+
+	// the monitor goroutine is part of the goroutine baseline the quiescence
+	// helper compares against
+	time.Sleep(10 * time.Millisecond)
+	r.baseG = runtime.NumGoroutine()
+
 	// ---- random sequences x random fault patterns
 	n := run.N(1200, 40000)
 	run.Cases("seq", n, func(i int, rng *verifkit.Rand) {
+		if r.hung {
+			run.Count("cases_skipped_after_a_save_that_never_returned", 1)
+			return
+		}
 		cfg := c08GenCfg(rng, true)
 		cfg.Fault = c09GenFault(rng)
 		nops := rng.Range(10, 160)
@@ -319,6 +457,10 @@ func TestVerifC09(t *testing.T) {
 	// ---- fault enumeration: one sequence, the k-th PutB fails, for every k
 	nk := run.N(90, 2500)
 	run.Cases("kth", nk, func(i int, rng *verifkit.Rand) {
+		if r.hung {
+			run.Count("cases_skipped_after_a_save_that_never_returned", 1)
+			return
+		}
 		cfg := c08GenCfg(rng, true)
 		cfg.Gate = cfg.Gate && rng.Bool()
 		nops := rng.Range(10, 90)
